@@ -274,7 +274,7 @@ var c11Table = probe.Define("C11", "table", func(t *rapid.T) c11In { panic("enum
 			adv = true
 		}
 	}
-	return probe.Outcome{NonTrivial: adv || len(in.Attrs) > 1}
+	return probe.Outcome{NonTrivial: adv || len(in.Attrs) > 1, Counts: map[string]int{"(identifier, attribute, path) triples x 7 decode functions": 2 * len(in.IDs) * len(in.Attrs)}}
 })
 
 var c11KeyLen = probe.Define("C11", "keylength", func(t *rapid.T) c11In { panic("enumerated") }, func(in c11In) probe.Outcome {
